@@ -24,7 +24,10 @@ Proof.
 Qed.
 
 (** ---- one printed power ---- *)
-Definition den_ok (q : Q) : Prop := (Zpos (Qden (Qred q)) <= gen_max_denominator)%Z.
+Definition den_ok (q : Q) : Prop := (Zpos (Qden (Qred q)) <= 10)%Z.
+(** the bound of limit_denominator in the source is (at least) the 10 of the property *)
+Lemma max_denominator_ok : (10 <=? gen_max_denominator)%Z = true.
+Proof. reflexivity. Qed.
 Definition power_of (q : Q) : power :=
   let n := Qnum (Qred q) in
   let d := Qden (Qred q) in
@@ -44,7 +47,11 @@ Definition power_of (q : Q) : power :=
 
 Lemma limit_denominator_id : forall q, den_ok q ->
   limit_denominator gen_max_denominator q = (Qnum (Qred q), Zpos (Qden (Qred q))).
-Proof. intros q H. unfold limit_denominator. apply Z.leb_le in H. rewrite H. reflexivity. Qed.
+Proof.
+  intros q H. unfold limit_denominator. unfold den_ok in H. pose proof max_denominator_ok as Hm. apply Z.leb_le in Hm.
+  assert (Hle : (Z.pos (Qden (Qred q)) <=? gen_max_denominator)%Z = true) by (apply Z.leb_le; lia).
+  rewrite Hle. reflexivity.
+Qed.
 
 Lemma power_num2str_render : forall q, den_ok q -> power_num2str q = render_power (power_of q).
 Proof.
